@@ -61,8 +61,8 @@ const ledgerAssume = "snapshots are taken through the verif hook under the ledge
 func init() {
 	core.Register(&core.Check{
 		Spec: core.Spec{
-			Prop: "C01",
-			Rule: "Random multi-node scenarios (1-5 real nodes; proposals valid and overdrawing at boundary amounts; harness-sealed vertices on tips, stale and equal parents; replays; concurrent proposal blocks; trusted sealers; delayed/partitioned delivery; orphan retries). After every operation the node is snapshotted; every vertex that became confirmed (declared as parent by a live vertex, or checkpointed) is evaluated once with big integers: inflow(issuer) over its full-history ancestors plus the checkpoint must cover its other spends there plus its amount (trusted-sealed, genesis, non-spice exempt). Dropped tips must lose their index entry. Non-trivial = confirmation whose issuer has other spends in that history or whose margin is below the amount, and every dropped tip; distinct by (operation, validation path, verdict, amount class, prior spends).",
+			Prop:        "C01",
+			Rule:        "Random multi-node scenarios (1-5 real nodes; proposals valid and overdrawing at boundary amounts; harness-sealed vertices on tips, stale and equal parents; replays; concurrent proposal blocks; trusted sealers; delayed/partitioned delivery; orphan retries). After every operation the node is snapshotted; every vertex that became confirmed (declared as parent by a live vertex, or checkpointed) is evaluated once with big integers: inflow(issuer) over its full-history ancestors plus the checkpoint must cover its other spends there plus its amount (trusted-sealed, genesis, non-spice exempt). Dropped tips must lose their index entry. Non-trivial = confirmation whose issuer has other spends in that history or whose margin is below the amount, and every dropped tip; distinct by (operation, validation path, verdict, amount class, prior spends).",
 			Assumptions: []string{ledgerAssume},
 			MinEvals:    300, MinNontriv: 10,
 		},
@@ -74,8 +74,8 @@ func init() {
 	})
 	core.Register(&core.Check{
 		Spec: core.Spec{
-			Prop: "C03",
-			Rule: "Same scenario engine with replay emphasis (same vertex again, same transaction proposed again, same transaction re-wrapped by another sealer, duplicates in concurrent proposal blocks and concurrent deliveries). After every operation: no transaction hash in two vertices (live + checkpointed), no vertex both live and checkpointed, transaction index is a bijection onto the held transactions; at most one of several concurrent proposals of one transaction succeeds. Non-trivial = replay attempts and concurrent duplicate blocks; distinct by (replay kind, node count, checkpoint present, block size).",
+			Prop:        "C03",
+			Rule:        "Same scenario engine with replay emphasis (same vertex again, same transaction proposed again, same transaction re-wrapped by another sealer, duplicates in concurrent proposal blocks and concurrent deliveries). After every operation: no transaction hash in two vertices (live + checkpointed), no vertex both live and checkpointed, transaction index is a bijection onto the held transactions; at most one of several concurrent proposals of one transaction succeeds. Non-trivial = replay attempts and concurrent duplicate blocks; distinct by (replay kind, node count, checkpoint present, block size).",
 			Assumptions: []string{ledgerAssume},
 			MinEvals:    300, MinNontriv: 10,
 		},
@@ -87,8 +87,8 @@ func init() {
 	})
 	core.Register(&core.Check{
 		Spec: core.Spec{
-			Prop: "C09",
-			Rule: "Same scenario engine. After every operation the snapshot must be a well-formed DAG: declared-parent graph acyclic (Kahn); every live non-genesis vertex has an edge from each distinct declared parent that is live and from nothing else; a declared parent that is not live is checkpointed; graph id = storage key = vertex hash; hash, sealing, issuer and receiver signatures recompute (harness's own rendering and the node's own verify). Every vertex returned by CreateLeaf references tips of the previous snapshot that survived the call and has weight max(parents)+1; a failed add leaves no new vertex or index entry. Non-trivial = every snapshot after a mutating operation; distinct by (operation, outcome, tip/live/parked buckets).",
+			Prop:        "C09",
+			Rule:        "Same scenario engine. After every operation the snapshot must be a well-formed DAG: declared-parent graph acyclic (Kahn); every live non-genesis vertex has an edge from each distinct declared parent that is live and from nothing else; a declared parent that is not live is checkpointed; graph id = storage key = vertex hash; hash, sealing, issuer and receiver signatures recompute (harness's own rendering and the node's own verify). Every vertex returned by CreateLeaf references tips of the previous snapshot that survived the call and has weight max(parents)+1; a failed add leaves no new vertex or index entry. Non-trivial = every snapshot after a mutating operation; distinct by (operation, outcome, tip/live/parked buckets).",
 			Assumptions: []string{ledgerAssume},
 			MinEvals:    300, MinNontriv: 10,
 		},
@@ -99,8 +99,8 @@ func init() {
 	})
 	core.Register(&core.Check{
 		Spec: core.Spec{
-			Prop: "C10",
-			Rule: "Same scenario engine with rule-breaking offers on every entry point: issuer = proposing node's wallet (local), issuer = sealer for gossiped vertices (also sealed by a wallet that is itself a node), issuer = genesis wallet, transactions with neither data nor spice, each also delivered before its parent and replayed from the orphan buffer. Each forbidden offer must return an error and leave neither vertex, parked entry nor index entry; every snapshot is scanned for self-sealed / genesis-issued / empty vertices. Non-trivial = forbidden offers; distinct by (rule, entry point, node role).",
+			Prop:        "C10",
+			Rule:        "Same scenario engine with rule-breaking offers on every entry point: issuer = proposing node's wallet (local), issuer = sealer for gossiped vertices (also sealed by a wallet that is itself a node), issuer = genesis wallet, transactions with neither data nor spice, each also delivered before its parent and replayed from the orphan buffer. Each forbidden offer must return an error and leave neither vertex, parked entry nor index entry; every snapshot is scanned for self-sealed / genesis-issued / empty vertices. Non-trivial = forbidden offers; distinct by (rule, entry point, node role).",
 			Assumptions: []string{ledgerAssume},
 			MinEvals:    300, MinNontriv: 8,
 		},
